@@ -168,7 +168,8 @@ MANIFEST = {
             "(impl_nodes_carry_locate), and rows Interior / Boundary of relate(Point p, B) = rows of the specification at EVERY p, nodes included, "
             "with coordinate_position = locate from C02 coordPos_eq_locate_dom_partial (K9 exclusion vacuous for these types) "
             "(relateImpl_point_rows_eq_spec_of_nodes, relateImpl_point_rows_eq_spec_dom_partial), and columns Interior / Boundary of relate(B, Point p) "
-            "through the two transpose laws (relateImpl_point_cols_eq_spec_dom_partial). Open there: B a LineString / MultiLineString / "
+            "through the two transpose laws (relateImpl_point_cols_eq_spec_dom_partial); on both paths of compute_intersection_matrix given DimsSpec of B "
+            "(relateImpl_point_rows_eq_spec_both_paths_partial). Open there: B a LineString / MultiLineString / "
             "GeometryCollection (self-noding of a simple line string records nothing; mod-2 node labels vs the specification's end point count; graph of "
             "disjoint members), and the Exterior row / column. The disjoint-envelope shortcut on the whole validity domain, polygons with holes "
             "included: 'hole coordinates in the reported rectangle' and 'rings closed' follow from validity (C02X dom_facts), so relateImpl = relateSpec "
